@@ -6,6 +6,7 @@ import (
 	"fmt"
 	"io"
 	"math/rand"
+	"strings"
 	"time"
 
 	"github.com/gauss-project/aurorafs/pkg/auth"
@@ -45,7 +46,9 @@ import (
 
 var c35Roles = []string{"consumer", "creator", "maintainer", "master",
 	// not roles:
-	"", "root", "Consumer", "master ", "admin", "consumer,creator", "*"}
+	"", "root", "Consumer", "master ", "admin", "consumer,creator", "*",
+	// long role names: the sealed token has no fixed size
+	strings.Repeat("r", 150), "consumer" + strings.Repeat(" ", 400)}
 
 const c35KnownRoles = 4
 
@@ -183,11 +186,19 @@ func c35Gen(rng *rand.Rand, tier string) *gosim.Plan {
 			case 3:
 				p.Ops = append(p.Ops, gosim.Op{K: "trunc", A: []int64{slot(), req(), int64(rng.Intn(2))}})
 			case 4:
-				p.Ops = append(p.Ops, gosim.Op{K: "extend", A: []int64{slot(), int64(1 + rng.Intn(40)), req()}})
+				n := 1 + rng.Intn(40)
+				if rng.Intn(3) == 0 {
+					n = 1 + rng.Intn(600)
+				}
+				p.Ops = append(p.Ops, gosim.Op{K: "extend", A: []int64{slot(), int64(n), req()}})
 			case 5, 6:
 				p.Ops = append(p.Ops, gosim.Op{K: "foreign", A: []int64{role(), pickTTL(), req()}})
 			default:
-				p.Ops = append(p.Ops, gosim.Op{K: "random", A: []int64{int64(rng.Intn(3)), int64(c35ShortLen + rng.Intn(120)), req()}})
+				n := c35ShortLen + rng.Intn(120)
+				if rng.Intn(3) == 0 {
+					n = c35ShortLen + rng.Intn(900)
+				}
+				p.Ops = append(p.Ops, gosim.Op{K: "random", A: []int64{int64(rng.Intn(3)), int64(n), req()}})
 			}
 		default:
 			p.Ops = append(p.Ops, gosim.Op{K: "short", A: []int64{slot(), int64(rng.Intn(4)), int64(rng.Intn(c35ShortLen)), req()}})
@@ -492,7 +503,7 @@ func c35Exec(r *gosim.Run) {
 				continue
 			}
 			raw := rawOf(t)
-			extra := make([]byte, int(o.Arg(1))%64+1)
+			extra := make([]byte, int(o.Arg(1))%1024+1)
 			r.Rng.Read(extra)
 			r.Logf("t=%v extend by %d bytes", rel(now), len(extra))
 			reject("a token with bytes appended", base64.StdEncoding.EncodeToString(append(raw, extra...)), c35Reqs[int(o.Arg(2))%len(c35Reqs)])
